@@ -52,19 +52,16 @@ impl ImdsClient {
         let mut headers = HashMap::new();
         headers.insert("Metadata".to_string(), "true".to_string());
 
-        hyper_client::get(
-            &url,
-            &headers,
-            self.key_keeper_shared_state
-                .get_current_key_guid()
-                .await
-                .unwrap_or(None),
-            self.key_keeper_shared_state
-                .get_current_key_value()
-                .await
-                .unwrap_or(None),
-            logger::write_warning,
-        )
-        .await
+        // read the key guid and value together: they must belong to the same key
+        let (key_guid, key) = match self
+            .key_keeper_shared_state
+            .get_current_key_guid_and_value()
+            .await
+            .unwrap_or(None)
+        {
+            Some((guid, key)) => (Some(guid), Some(key)),
+            None => (None, None),
+        };
+        hyper_client::get(&url, &headers, key_guid, key, logger::write_warning).await
     }
 }
